@@ -32,15 +32,18 @@ enum { G_GET, G_GET_CONST, G_COPY_SRC, G_SWAP_A, G_SWAP_B, NG };
 static const char *gprobe[] = { "get", "get_const", "copy.src", "swap.a", "swap.b" };
 enum { U_GET, U_GET_CONST, U_RELEASE, U_SWAP_A, U_SWAP_B, U_RESET, U_ALLOC, NU_ };
 static const char *uprobe[] = { "get", "get_const", "release", "swap.a", "swap.b", "reset", "alloc" };
-enum { S_GET, S_GET_CONST, S_UNIQUE, S_SHARE_SRC, S_SHARE_DST, S_SWAP_A, S_SWAP_B, S_RESET, S_ALLOC, S_WEAK_FROM_SP, S_LOCK_SP, NS_ };
+enum { S_GET, S_GET_CONST, S_UNIQUE, S_SHARE_SRC, S_SHARE_DST, S_SWAP_A, S_SWAP_B, S_RESET, S_ALLOC, S_WEAK_FROM_SP, S_LOCK_SP,
+       S_SHARE_DST_COPY_OF_SRC, S_SHARE_DST_COPY_OF_COOWNER, S_SHARE_DST_EMPTY_SRC, S_LOCK_SP_SAME_BLOCK, NS_ };
 static const char *sprobe[] = { "get", "get_const", "unique", "share.src", "share.dst", "swap.a", "swap.b", "reset", "alloc",
-                                "weak_from.sp", "weak_lock.sp" };
-enum { WP_FROM_WP, WP_LOCK_WP, WP_SWAP_A, WP_SWAP_B, WP_RESET, NW_ };
-static const char *wprobe[] = { "from.wp", "lock.wp", "swap.a", "swap.b", "reset" };
+                                "weak_from.sp", "weak_lock.sp", "share.dst-is-copy-of-src", "share.dst-is-copy-of-coowner",
+                                "share.dst.src-empty", "weak_lock.sp-refers-to-same-block" };
+enum { WP_FROM_WP, WP_LOCK_WP, WP_SWAP_A, WP_SWAP_B, WP_RESET, WP_FROM_WP_SAME_BLOCK, NW_ };
+static const char *wprobe[] = { "from.wp", "lock.wp", "swap.a", "swap.b", "reset", "from.wp-already-refers-to-sp-block" };
 enum { A_ALLOC, A_SET, A_RELEASE, A_DATA, A_DATA_CONST, A_AT, A_AT_CONST, A_SLICE_A, A_SLICE_S, A_SLICE_INPLACE,
-       A_UNSLICE_S, A_UNSLICE_A, A_UNSLICE_INPLACE, A_RESET, NA_ };
+       A_UNSLICE_S, A_UNSLICE_A, A_UNSLICE_INPLACE, A_RESET, A_SLICE_S_COPY_OF_A, A_UNSLICE_A_COPY_OF_S, NA_ };
 static const char *aprobe[] = { "alloc", "set", "release", "data", "data_const", "at", "at_const", "slice.a", "slice.s",
-                                "slice.inplace", "unslice.s", "unslice.a", "unslice.inplace", "reset" };
+                                "slice.inplace", "unslice.s", "unslice.a", "unslice.inplace", "reset",
+                                "slice.s-is-copy-of-a", "unslice.a-is-copy-of-s" };
 
 struct cell { int kind, state, way, probe; };
 static struct cell cells[4096];
@@ -174,6 +177,9 @@ static void cell_shared(const struct cell *c)
     /* "other" owns something of its own so that a wrongly executed transfer is visible */
     cstl_shared_ptr_alloc(other, 16, clr_cb);
     if (c->probe == S_LOCK_SP && c->state >= 1) cstl_weak_ptr_from(wk, other);
+    if (c->probe == S_LOCK_SP_SAME_BLOCK) cstl_weak_ptr_from(wk, o);
+    if (c->probe == S_SHARE_DST_EMPTY_SRC) cstl_shared_ptr_reset(other);
+    if (c->probe == S_SHARE_DST_COPY_OF_COOWNER && c->state == 1) cstl_shared_ptr_share(o, co);
     x = stray(&ov, sizeof(*o), c->way); o = ov;
     vrt_state(sstate[c->state]);
     VRT_OP2("shared_ptr.probe", "probe %ld way %ld", c->probe, c->way);
@@ -188,7 +194,15 @@ static void cell_shared(const struct cell *c)
     case S_RESET: ab = VRT_ABORTS(cstl_shared_ptr_reset(x)); break;
     case S_ALLOC: ab = VRT_ABORTS(cstl_shared_ptr_alloc(x, 8, NULL)); break;
     case S_WEAK_FROM_SP: ab = VRT_ABORTS(cstl_weak_ptr_from(wk, x)); break;
-    default: ab = VRT_ABORTS(cstl_weak_ptr_lock(wk, x)); break;
+    case S_LOCK_SP: case S_LOCK_SP_SAME_BLOCK: ab = VRT_ABORTS(cstl_weak_ptr_lock(wk, x)); break;
+    case S_SHARE_DST_EMPTY_SRC: ab = VRT_ABORTS(cstl_shared_ptr_share(other, x)); break;
+    case S_SHARE_DST_COPY_OF_COOWNER:
+        /* the stray destination refers to the very control block the source owns */
+        ab = VRT_ABORTS(cstl_shared_ptr_share(co, x)); break;
+    default:
+        /* the destination is a stray copy of the source itself (needs the original: not for relocation) */
+        if (o == NULL) { VRT_COUNT("cells.not-in-scope.copy-of-src-after-relocation"); ab = 1; break; }
+        ab = VRT_ABORTS(cstl_shared_ptr_share(o, x)); break;
     }
     must_abort(ab, c, sstate[c->state], sprobe[c->probe]);
     VRT_OP0("shared_ptr.reset", "original / proper objects after the stray probe");
@@ -217,7 +231,7 @@ static void cell_weak(const struct cell *c)
     vrt_state(wstate[c->state]);
     VRT_OP2("weak_ptr.probe", "probe %ld way %ld", c->probe, c->way);
     switch (c->probe) {
-    case WP_FROM_WP: ab = VRT_ABORTS(cstl_weak_ptr_from(x, owner)); break;
+    case WP_FROM_WP: case WP_FROM_WP_SAME_BLOCK: ab = VRT_ABORTS(cstl_weak_ptr_from(x, owner)); break;
     case WP_LOCK_WP: ab = VRT_ABORTS(cstl_weak_ptr_lock(x, tgt)); break;
     case WP_SWAP_A: ab = VRT_ABORTS(cstl_weak_ptr_swap(x, otherw)); break;
     case WP_SWAP_B: ab = VRT_ABORTS(cstl_weak_ptr_swap(otherw, x)); break;
@@ -273,9 +287,16 @@ static void cell_array(const struct cell *c)
     case A_UNSLICE_S: ab = VRT_ABORTS(cstl_array_unslice(x, other)); break;
     case A_UNSLICE_A: ab = VRT_ABORTS(cstl_array_unslice(other, x)); break;
     case A_UNSLICE_INPLACE: ab = VRT_ABORTS(cstl_array_unslice(x, x)); break;
-    default: ab = VRT_ABORTS(cstl_array_reset(x)); break;
+    case A_RESET: ab = VRT_ABORTS(cstl_array_reset(x)); break;
+    case A_SLICE_S_COPY_OF_A:
+        /* `s = a; cstl_array_slice(&a, i, j, &s)`: the stray destination shares the source's control block */
+        if (o == NULL || c->state == 0) { applicable = 0; ab = 1; break; }
+        ab = VRT_ABORTS(cstl_array_slice(o, 0, 1, x)); break;
+    default:
+        if (o == NULL || c->state == 0) { applicable = 0; ab = 1; break; }
+        ab = VRT_ABORTS(cstl_array_unslice(o, x)); break;
     }
-    if (!applicable) { VRT_COUNT("cells.not-in-scope.at-on-empty"); }
+    if (!applicable) { VRT_COUNT("cells.not-in-scope.at-on-empty-or-copy-after-relocation"); }
     else must_abort(ab, c, astate[c->state], aprobe[c->probe]);
     VRT_OP0("array.reset", "original / proper objects after the stray probe");
     if (o != NULL) {
